@@ -2,6 +2,7 @@ package c20
 
 import (
 	"fmt"
+	"reflect"
 	"sort"
 	"strings"
 	"testing"
@@ -9,6 +10,7 @@ import (
 
 	sdk "github.com/cosmos/cosmos-sdk/types"
 	authtypes "github.com/cosmos/cosmos-sdk/x/auth/types"
+	"github.com/cosmos/cosmos-sdk/x/authz"
 	banktypes "github.com/cosmos/cosmos-sdk/x/bank/types"
 	govtypes "github.com/cosmos/cosmos-sdk/x/gov/types"
 	"pgregory.net/rapid"
@@ -520,6 +522,52 @@ func (w *world) attempts(rt *rapid.T) attempt {
 	}
 }
 
+// declaredSender returns the address a message names as the party acting ("Sender", for lockup messages "Owner"): the
+// field every handler authorises against.
+func declaredSender(msg sdk.Msg) (string, bool) {
+	v := reflect.ValueOf(msg)
+	if v.Kind() == reflect.Ptr {
+		v = v.Elem()
+	}
+	if v.Kind() != reflect.Struct {
+		return "", false
+	}
+	for _, n := range []string{"Sender", "Owner"} {
+		if f := v.FieldByName(n); f.IsValid() && f.Kind() == reflect.String {
+			return f.String(), true
+		}
+	}
+	return "", false
+}
+
+// checkSigner: "sent by X" means, at the transaction level, signed by X. The handler authorises the declared sender
+// field, the ante handler (and the authz module) authenticate the signers the application's codec derives from the
+// message: both must be one and the same address, otherwise anybody could name the owner as sender and sign as
+// themselves.
+func checkSigner(rt *rapid.T, c *chain.Chain, kind string, msg sdk.Msg) {
+	want, ok := declaredSender(msg)
+	if !ok {
+		rt.Fatalf("harness: %s (%T) has no Sender/Owner field", kind, msg)
+	}
+	signers, _, err := c.App.AppCodec().GetMsgV1Signers(msg)
+	if err != nil {
+		rt.Fatalf("%s: the application cannot derive the signers: %v", kind, err)
+	}
+	if len(signers) != 1 || sdk.AccAddress(signers[0]).String() != want {
+		got := []string{}
+		for _, b := range signers {
+			got = append(got, sdk.AccAddress(b).String())
+		}
+		rt.Fatalf("%s: the handler authorises the declared sender %s but the transaction is authenticated against the signers %v", kind, want, got)
+	}
+	if lg, ok := msg.(interface{ GetSigners() []sdk.AccAddress }); ok {
+		ls := lg.GetSigners()
+		if len(ls) != 1 || ls[0].String() != want {
+			rt.Fatalf("%s: legacy GetSigners() = %v, declared sender %s", kind, ls, want)
+		}
+	}
+}
+
 func TestPropAuthz(t *testing.T) {
 	drv.Check(t, drv.Cfg{Name: "owner-only", Rule: rule, Quick: 250, Thorough: 20000}, func(rt *rapid.T, cs *drv.Case) {
 		w := buildWorld(rt, t)
@@ -559,7 +607,9 @@ func TestPropAuthz(t *testing.T) {
 			if authorised {
 				// the control: must succeed unless the object state makes the operation inapplicable
 				b := c.Branch()
-				r := b.Exec(a.build(s.addr))
+				cm := a.build(s.addr)
+				checkSigner(rt, c, a.kind, cm)
+				r := b.Exec(cm)
 				if !r.OK() && !a.controlMayFail {
 					rt.Fatalf("control: %s on %s by its rightful owner/admin (%s) failed: %v", a.kind, a.obj, s.name, r.Err)
 				}
@@ -571,12 +621,68 @@ func TestPropAuthz(t *testing.T) {
 				continue
 			}
 			before := c.Digest()
-			r := c.Exec(a.build(s.addr))
+			um := a.build(s.addr)
+			checkSigner(rt, c, a.kind, um)
+			r := c.Exec(um)
 			if r.OK() {
 				rt.Fatalf("%s on %s (rightful owner/admin: actor %d) sent by %s SUCCEEDED", a.kind, a.obj, a.owner, s.name)
 			}
 			if c.Digest() != before {
 				rt.Fatalf("%s on %s sent by %s failed but changed state", a.kind, a.obj, s.name)
+			}
+			// the delegated route: the message names the rightful owner as sender and is executed by the wrong sender through
+			// authz.MsgExec. Without a grant it must fail without trace; with the owner's generic grant for exactly this message
+			// type it must succeed like the owner's own transaction (control, on a branch) - and a grant for another type, or
+			// given by somebody else, must not help.
+			if a.owner >= 0 && !strings.Contains(a.kind, "module account") && rapid.IntRange(0, 2).Draw(rt, "viaAuthz") == 0 {
+				owner := chain.Actor(a.owner)
+				inner := a.build(owner)
+				ex := authz.NewMsgExec(s.addr, []sdk.Msg{inner})
+				r := c.Exec(&ex)
+				if r.OK() {
+					rt.Fatalf("%s on %s executed through authz.MsgExec by %s WITHOUT a grant of the owner SUCCEEDED", a.kind, a.obj, s.name)
+				}
+				if c.Digest() != before {
+					rt.Fatalf("%s on %s through authz.MsgExec by %s failed but changed state", a.kind, a.obj, s.name)
+				}
+				cs.Class("authz-exec-without-grant")
+				b := c.Branch()
+				url := sdk.MsgTypeURL(inner)
+				// a grant by a third party (the funded stranger, or A1 when the stranger is the sender) for this type is no authority
+				third := chain.Actor(A2)
+				if third.Equals(s.addr) || third.Equals(owner) {
+					third = chain.Actor(A1)
+				}
+				if !third.Equals(s.addr) && !third.Equals(owner) {
+					g, err := authz.NewMsgGrant(third, s.addr, authz.NewGenericAuthorization(url), nil)
+					if err != nil {
+						rt.Fatalf("harness: NewMsgGrant: %v", err)
+					}
+					must(rt, "third-party grant", b.Exec(g))
+					ex2 := authz.NewMsgExec(s.addr, []sdk.Msg{a.build(owner)})
+					if r := b.Exec(&ex2); r.OK() {
+						rt.Fatalf("%s on %s through authz.MsgExec by %s with a grant given by a THIRD PARTY succeeded", a.kind, a.obj, s.name)
+					}
+					cs.Class("authz-exec-third-party-grant")
+				}
+				// the owner's grant for another message type is no authority either
+				other := sdk.MsgTypeURL(&banktypes.MsgSend{})
+				g0, _ := authz.NewMsgGrant(owner, s.addr, authz.NewGenericAuthorization(other), nil)
+				must(rt, "owner grant for another type", b.Exec(g0))
+				ex3 := authz.NewMsgExec(s.addr, []sdk.Msg{a.build(owner)})
+				if r := b.Exec(&ex3); r.OK() {
+					rt.Fatalf("%s on %s through authz.MsgExec by %s with the owner's grant for %s succeeded", a.kind, a.obj, s.name, other)
+				}
+				g1, _ := authz.NewMsgGrant(owner, s.addr, authz.NewGenericAuthorization(url), nil)
+				must(rt, "owner grant", b.Exec(g1))
+				ex4 := authz.NewMsgExec(s.addr, []sdk.Msg{a.build(owner)})
+				r = b.Exec(&ex4)
+				if !r.OK() && !a.controlMayFail {
+					rt.Fatalf("control: %s on %s through authz.MsgExec by %s WITH the owner's grant failed: %v", a.kind, a.obj, s.name, r.Err)
+				}
+				if r.OK() {
+					cs.Class("authz-exec-with-grant-ok")
+				}
 			}
 			cs.Class("msg=" + a.kind)
 			cs.Class("sender=" + s.name)
